@@ -75,7 +75,7 @@ TypeOK == /\ phase \in {"in", "out"} /\ kname \in Kernels
           /\ (phase = "out" => Len(out) = NX(x) /\ Len(out[1]) = NY(x))
 
 \* ---------------------------------- bounded instances ----------------------------------
-GridsQ  == { <<2, 2>>, <<1, 3>> }
+GridsQ  == { <<2, 2>> }
 GridsT  == { <<2, 2>>, <<1, 3>>, <<3, 2>>, <<2, 3>> }
 GridsT2 == { <<2, 2>> }
 Bits   == {0, 1}
